@@ -27,6 +27,19 @@ HAMMER = {"threads": [[{"op": "reg", "r": "infix", "name": "uin", "val": "h1", "
                       [{"op": "exec", "r": "infix", "name": "+"}, {"op": "exec", "r": "prefix", "name": "-"}]], "mode": "hammer", "repeat": 3000}
 
 
+# programs that need several registries within one evaluation (an operator applied to an operand built with operators of the
+# other kinds, nested postfix, calls with operator arguments) against tokenizing threads and registrations: lock-order inversions
+T = lambda text: {"op": "text", "text": text}
+P = lambda text: {"op": "parse", "text": text}
+HAMMER2 = {"threads": [[T("(- 2) ++"), T("(1 + - 2) ++"), T("(2 ++) ++")],
+                       [P("alpha beginWith beta"), T("min(- 3 ++, 1 + 2)"), P("a ++ + - b")],
+                       [T("! (1 < 2) && true"), T("x = - 1; x ++"), T("- (2 ++)")],
+                       [{"op": "reg", "r": "prefix", "name": "upre", "val": "h1"}, {"op": "reg", "r": "postfix", "name": "upost", "val": "h2"}, T("upre (3 upost)")],
+                       [T("max(1, 2) ++ * - 3"), P("not_an_op x y"), T("(upre 1) upost")],
+                       [{"op": "reg", "r": "infix", "name": "uin", "val": "h3", "prec": 115, "assoc": "L"}, {"op": "reg", "r": "func", "name": "f", "val": "h4"}, T("f(1 uin 2) ++")]],
+           "mode": "hammer", "repeat": 2000}
+
+
 def apalache(run):
     """Inductive invariant of the once-cell protocol for 8 threads (Apalache, symbolic): initiation, consecution, and
     IndInv => NoPartialInit.  TLC explores 2-3 threads; this closes the gap for the initialisation protocol."""
@@ -87,7 +100,15 @@ def check(run):
         elif summ.get("panics") or summ.get("impossible_results"):
             run.violation("C13/hammer", "under sustained load %d calls panicked and %d returned results no registration explains" % (summ.get("panics", 0), summ.get("impossible_results", 0)),
                           {"family": "engine", "scenario": HAMMER, "summary": summ})
-    run.leg("R:hammer", runs=8 if thorough else 3, threads=6)
+    for k in range(4 if thorough else 2):
+        evs, summ = eng.run_scenario(dict(HAMMER2, repeat=(10000 if thorough else 2000) + k), timeout=120)
+        run.traces += 1
+        if summ.get("deadlock") or summ.get("hung") or "aborted" in summ:
+            run.violation("C13/deadlock", "sustained concurrent evaluation of programs that use several registries at once did not finish: %s" % {k2: v for k2, v in summ.items() if k2 != "stderr"},
+                          {"family": "engine", "scenario": HAMMER2, "summary": summ})
+        elif summ.get("panics"):
+            run.violation("C13/hammer", "under sustained load %d calls panicked" % summ.get("panics", 0), {"family": "engine", "scenario": HAMMER2, "summary": summ})
+    run.leg("R:hammer", runs=(8 if thorough else 3) + (4 if thorough else 2), threads=6)
     # the directed F1 scenario: a known finding on the unchanged tree (non-atomic evaluation), anything else is a violation
     evs, summ = eng.run_scenario(F1_SCENARIO)
     if summ.get("deadlock") or "aborted" in summ:
